@@ -1,3 +1,8 @@
--- This module serves as the root of the `BasicModel` library.
--- Import modules here that should be built as part of the library.
-import BasicModel.Basic
+import BasicModel.Model.Err
+import BasicModel.Model.Ieee
+import BasicModel.Model.Val
+import BasicModel.Model.Std
+import BasicModel.Model.Ops
+import BasicModel.Model.Fmt
+import BasicModel.Model.Func
+import BasicModel.Proto
